@@ -9,5 +9,7 @@ FACETS = [("LookupTrace.tla", "LookupTrace.cfg", KEEP, {"send", "recv"})]
 def run(ctx):
     gens = [{"module": "GenLookup.tla", "cfg": "Gen_C13_quick.cfg" if ctx.quick else "Gen_C13_thorough.cfg", "name": "bfs"},
             # the same lookup issued again with the query cache on: sub-queries answered from the cache
-            {"module": "GenLookup.tla", "cfg": "Gen_C13_repeat.cfg", "name": "repeat"}]
+            {"module": "GenLookup.tla", "cfg": "Gen_C13_repeat.cfg", "name": "repeat"},
+            # sortlists: addresses matching early / late / no entry, IPv4 and IPv6 entries, hosts-file addresses
+            {"module": "GenLookup.tla", "cfg": "Gen_C13_sort.cfg", "name": "sortlist"}]
     simlib.engine_check(ctx, gens, FACETS, labels=("c13.",), selftests=mutators.LOOKUP)
